@@ -15,7 +15,7 @@ import schemagen as SG
 N, L, NN = G.named, G.lst, G.nn
 TS_LOCS = ["SCHEMA", "SCALAR", "OBJECT", "FIELD_DEFINITION", "ARGUMENT_DEFINITION", "INTERFACE", "UNION", "ENUM", "ENUM_VALUE",
            "INPUT_OBJECT", "INPUT_FIELD_DEFINITION"]
-EXEC_LOCS = ["QUERY", "FIELD", "FRAGMENT_SPREAD"]
+EXEC_LOCS = ["QUERY", "MUTATION", "SUBSCRIPTION", "FIELD", "FRAGMENT_DEFINITION", "FRAGMENT_SPREAD", "INLINE_FRAGMENT", "VARIABLE_DEFINITION"]
 BUILTIN = ["Int", "Float", "String", "Boolean", "ID"]
 
 
